@@ -26,7 +26,7 @@ CFG = {
                   "per-element atomic steps (and of Fetch/Acc steps for the canvas); real goroutine schedules, the Go "
                   "memory model and the race detector's happens-before are runtime facts that are SAMPLED, not proved: "
                   "quick runs every mesh case once under the default scheduler and once under the -race binary "
-                  "(7.4k cases) plus 2 marched canvases (2 blocks x 2 attributes, two overlapping fields) and 3 repeated accumulation-only canvases (2, 8, 12 blocks) under -race; thorough repeats every exhaustive case 12x for each "
+                  "(7.4k cases) plus, under -race, one marched 2-block x 2-attribute canvas, MarchParallel over NumCPU+4 blocks, and 4 accumulation-only canvases (2, 8, 12 blocks; 34 jobs); thorough repeats every exhaustive case 12x for each "
                   "GOMAXPROCS in {1,2,16} with and without runtime.Gosched injected in the callback, under both binaries. "
                   "Race reports depend on the schedule (the getSection race below is reported in ~2 of 3 runs). "
                   "Trusted: Coq kernel + vm_compute; hand-written model tied by differential correspondence; "
@@ -46,7 +46,10 @@ CFG = {
             "canvases (1, 2, 8 blocks, negative chunk, box ending on a chunk boundary, nothing crossing the cutoff, two "
             "overlapping fields, empty canvas), seam canvases (signed-distance spheres whose min/max along each axis lies "
             "inside, a hair inside, just short of or just across the one-cell seam between two blocks, borders -100..200, "
-            "2 tripods + 3 mixed + 3 random in quick, 60 + 40 random in thorough) + 24 random large ones in thorough; distinct by case description; non-trivial = "
+            "2 tripods + 3 mixed + 3 random in quick, 60 + 40 random in thorough), canvases with more jobs than the "
+            "runtime.NumCPU() pool workers (a tube through NumCPU+4 surface-bearing blocks marched at GOMAXPROCS 2 and, "
+            "parallel variants only, under -race; 2 x (NumCPU+1) accumulation jobs; NumCPU .. 2*NumCPU+8 blocks in "
+            "thorough) + 24 random large ones in thorough; distinct by case description; non-trivial = "
             "n >= 2 and pool >= 2 (mesh) / >= 2 blocks and >= 1 triangle (marching)",
     "trusted": ["Go race detector (-race build of the same harness, GORACE=halt_on_error=0): reports are attributed to the "
                 "case that was executing; absence of a report is evidence for the sampled schedules only",
